@@ -97,6 +97,7 @@ def handleRead (mode hex : String) (impl : List String) : String :=
     let rG := render Gen.GPMF.tables bs
     if impl.head? = some "panic" then s!"VIOL clause=gm.no_panic model={rS.take 40}"
     else if impl.head? = some "hang" then "VIOL clause=gm.no_hang"
+    else if impl.head? = some "hang-skipped" then "SKIP reason=hang-skipped"
     else if rS = "unmodelled" then "SKIP reason=grammar"
     else
       let cls := (rS.splitOn " ").headD ""
@@ -128,6 +129,7 @@ def handleWalk (hex skip stop : String) (impl : List String) : String :=
   | none => "BAD"
   | some bs =>
     if impl.head? = some "panic" then "VIOL clause=gm.walk_no_panic" else
+    if impl.head? = some "hang-skipped" then "SKIP reason=hang-skipped" else
     match (readAll Spec.expectedTables bs : Outcome (List (Elem Float))) with
     | .ok es =>
       let (forest, n) := roseOfL 0 es
